@@ -7,17 +7,19 @@ inside generators, exported with h.to_proto and netlisted with h.netlist.  For e
   spice partition   — read from the netlist text alone (Python, observe.spice_partition)
 must coincide, together with the leaf devices and their parameters.
 """
+import copy
 import json
 
 import common
 import designs
+import gen_design
 
 h = common.repo_env()
 
 ASSUMPTIONS = [
     "a design the code rejects although Sem.src accepts it is not a violation of C01 (it constrains returned packages); it is "
     "reported as a broken correspondence unless it is one of the documented limitations in designs.known_limitation",
-    "instance arrays connected to no-connects are not generated (whether the elements' nets are private is ambiguous)",
+    "a no-connect on an array or Pair port gives every element a net of its own (the statement's last sentence; Pairs always did, arrays since fix b018be6)",
     "element instances are identified by the documented names arr_k / pair_m (designer names are friendly here; adversarial names are C05's)",
 ]
 TRUSTED = ["harness/build.py (IR -> hdl21 objects)", "observe.pkg_json / observe.spice_partition"]
@@ -38,7 +40,26 @@ def corpus():
     d2 = {"bundles": [], "top": "Top", "modules": [in3, {"name": "Top", "sigs": [{"n": "x", "w": 1, "port": True, "dir": "none"}, {"n": "y", "w": 1, "port": True, "dir": "none"},
           {"n": "z", "w": 1, "port": True, "dir": "none"}], "bundles": [],
           "insts": [{"n": "i", "of": {"k": "module", "name": "In3"}, "conns": [["a", {"k": "concat", "ps": [{"k": "sig", "n": "x"}, {"k": "sig", "n": "y"}, {"k": "sig", "n": "z"}]}]]}]}]}
-    return [{"design": d1, "style": "proc"}, {"design": d2, "style": "proc"}]
+    # an internal bundle instance whose wide member is used only through slices / a concatenation of its reference
+    lf = gen_design.leaf_sig
+    bw = {"name": "BW", "tree": {"sigs": [lf("x", 4), lf("y", 1)], "subs": []}}
+    bx = lambda i: {"k": "slice", "p": {"k": "bref", "root": "b", "path": ["x"]}, "i": i}
+    d3 = {"bundles": [bw], "top": "Top", "modules": [{"name": "Top", "sigs": [{"n": "t", "w": 1, "port": True, "dir": "none"}], "bundles": [{"n": "b", "of": "BW", "port": False}],
+          "insts": [{"n": "e1", "of": copy.deepcopy(gen_design.LEAVES[0]), "conns": [["a", bx({"s": 1, "e": 3, "st": None})], ["b", {"k": "bref", "root": "b", "path": ["y"]}]]},
+                    {"n": "r1", "of": r, "conns": [["p", bx({"i": 0})], ["n", {"k": "sig", "n": "t"}]]},
+                    {"n": "r2", "of": r, "conns": [["p", {"k": "slice", "p": {"k": "concat", "ps": [bx({"s": 2, "e": 4, "st": None})]}, "i": {"i": 0}}], ["n", bx({"i": 3})]]}]}]}
+    # … and a member whose one and only use is a range slice of its reference
+    d5 = {"bundles": [bw], "top": "Top", "modules": [{"name": "Top", "sigs": [], "bundles": [{"n": "b", "of": "BW", "port": False}],
+          "insts": [{"n": "e1", "of": copy.deepcopy(gen_design.LEAVES[0]), "conns": [["a", bx({"s": 1, "e": 3, "st": None})], ["b", {"k": "bref", "root": "b", "path": ["y"]}]]}]}]}
+    # an instance pair of a module that itself holds an instance pair (and is instantiated nowhere else)
+    mid = {"name": "Mid", "sigs": [{"n": "a", "w": 1, "port": True, "dir": "none"}, {"n": "g", "w": 1, "port": True, "dir": "none"}], "bundles": [{"n": "dd", "of": "Diff", "port": False}],
+           "insts": [{"n": "pr", "of": r, "pair": ["p", "n"], "conns": [["p", {"k": "bundle", "n": "dd"}], ["n", {"k": "sig", "n": "g"}]]},
+                     {"n": "r0", "of": r, "conns": [["p", {"k": "sig", "n": "a"}], ["n", {"k": "bref", "root": "dd", "path": ["p"]}]]},
+                     {"n": "r1", "of": r, "conns": [["p", {"k": "sig", "n": "a"}], ["n", {"k": "bref", "root": "dd", "path": ["n"]}]]}]}
+    d4 = {"bundles": [copy.deepcopy(gen_design.DIFF)], "top": "Top", "modules": [mid, {"name": "Top", "sigs": [{"n": "v", "w": 1, "port": True, "dir": "none"}], "bundles": [{"n": "d", "of": "Diff", "port": False}],
+          "insts": [{"n": "pm", "of": {"k": "module", "name": "Mid"}, "pair": ["p", "n"], "conns": [["a", {"k": "bundle", "n": "d"}], ["g", {"k": "sig", "n": "v"}]]}]}]}
+    return [{"design": d1, "style": "proc"}, {"design": d2, "style": "proc"}, {"design": d3, "style": "proc"}, {"design": d3, "style": "class"},
+            {"design": d4, "style": "proc"}, {"design": d4, "style": "gen"}, {"design": d5, "style": "proc"}, {"design": d5, "style": "class"}]
 
 
 def judge(case, im, mo):
